@@ -301,6 +301,18 @@ pub fn suite_c14(ctx: &mut Ctx) {
                     f32s.push((v as f32).to_bits() as u64);
                 }
             }
+            // every binade of the format's range (and a little beyond): the power of two itself, one ulp above, 1.5 x
+            for e64 in (1023 - 4 * n as u64 - 6)..=(1023 + 4 * n as u64 + 6) {
+                for m in [0u64, 1, 1 << 51] {
+                    f64s.push((e64 << 52) | m);
+                    if m == 0 || e64 % 3 == 0 {
+                        f64s.push((1 << 63) | (e64 << 52) | m);
+                    }
+                }
+                if e64 > 1023 - 127 && e64 < 1023 + 128 {
+                    f32s.push((e64 + 127 - 1023) << 23);
+                }
+            }
             for _ in 0..ctx.q(100, 2000) {
                 let e64 = ctx.rng.gen_range(1023 - 130..1023 + 130) as u64;
                 f64s.push(((ctx.rng.gen::<u64>() & 1) << 63) | (e64 << 52) | (ctx.rng.gen::<u64>() & ((1 << 52) - 1)));
